@@ -286,8 +286,9 @@ func (mc *MetricsCollector) updateAverageResponseTime(newResponseTime float64) {
 func (mc *MetricsCollector) GetMetrics() *Metrics {
 	mc.metrics.mutex.RLock()
 
-	// Update uptime (fast string operation)
-	mc.metrics.Uptime = time.Since(mc.metrics.StartTime).String()
+	// Compute uptime for the copy only: this function holds the read lock, so it must
+	// not write to the shared metrics (concurrent GetMetrics calls would race)
+	uptime := time.Since(mc.metrics.StartTime).String()
 
 	// Get pooled metrics object to reduce allocations
 	metricsCopy := mc.metricsPool.Get().(*Metrics)
@@ -312,7 +313,7 @@ func (mc *MetricsCollector) GetMetrics() *Metrics {
 
 	// Copy non-atomic fields
 	metricsCopy.StartTime = mc.metrics.StartTime
-	metricsCopy.Uptime = mc.metrics.Uptime
+	metricsCopy.Uptime = uptime
 
 	// Copy backend metrics using pooled objects
 	for name, backend := range mc.metrics.BackendMetrics {
